@@ -254,6 +254,7 @@ func c18Run(c fw.Case) fw.Verdict {
 		bgwg.Add(2)
 		go func() { // local writer on the target
 			defer bgwg.Done()
+			rng := rand.New(rand.NewSource(c.Seed + 101)) // one generator per goroutine
 			if moment == "during-load" {
 				return // nothing is written through a store that has not loaded its log (assumption of the properties)
 			}
@@ -276,6 +277,7 @@ func c18Run(c fw.Case) fw.Verdict {
 		}()
 		go func() { // remote writer: replication into P
 			defer bgwg.Done()
+			rng := rand.New(rand.NewSource(c.Seed + 102))
 			for i := 0; ; i++ {
 				select {
 				case <-stopBG:
@@ -336,6 +338,7 @@ func c18Run(c fw.Case) fw.Verdict {
 		})
 	}
 	go func() {
+		rng := rand.New(rand.NewSource(c.Seed + 103))
 		switch {
 		case isPoint:
 			select {
